@@ -80,11 +80,20 @@ theorem splitSlash_id {t : Bytes} (ht : okSeg t) : splitSlash (idPrefix ++ t) = 
 /-- `handleConfigID` for an id with exactly one candidate whose stored path is clean -/
 theorem handleConfigID_unique {idx : Index} {t : Bytes} {segs : List Bytes} (ht : okSeg t)
     (hc : candidates t idx = [renderPath segs]) (hok : okSegs segs) (hne : segs ≠ []) :
-    handleConfigID idx (idPrefix ++ t) = .to (renderPath segs) := by
+    handleConfigID idx (idPrefix ++ t) = .to (rootSlash (renderPath segs)) := by
   unfold handleConfigID
   rw [splitSlash_id ht]
   simp only
   have h1 : t ≠ [] := ht.1
   simp [h1, hc, joinSlash, cleanRooted_render_slash hok hne]
+
+theorem rootSlash_root : rootSlash (renderPath [cfgKey]) = cfgPrefix := by decide
+
+theorem rootSlash_below (s : Bytes) (rest : List Bytes) :
+    rootSlash (renderPath (cfgKey :: s :: rest)) = renderPath (cfgKey :: s :: rest) := by
+  unfold rootSlash
+  have : renderPath (cfgKey :: s :: rest) ≠ slash :: cfgKey := by
+    simp [renderPath, cfgKey]
+  simp [this]
 
 end CaddyModel.C12
